@@ -952,15 +952,17 @@ func (b *beacon) ShiftMany(howMany int) []treasure.Treasure {
 	counter := 0
 	for _, treasureObj := range b.treasuresByOrder {
 		if counter < howMany {
-			lockID := treasureObj.StartTreasureGuard(true)
-			clonedTreasure := treasureObj.Clone(lockID)
-			treasureObj.ReleaseTreasureGuard(lockID)
-			shiftedTreasures = append(shiftedTreasures, clonedTreasure)
-			delete(b.treasuresByKeys, treasureObj.GetKey())
-			counter++
-		} else {
-			remainingTreasures = append(remainingTreasures, treasureObj)
+			// never wait for a record guard while holding b.mu (see ShiftExpired): a busy record stays for the next call
+			if lockID := treasureObj.StartTreasureGuard(false); lockID != 0 {
+				clonedTreasure := treasureObj.Clone(lockID)
+				treasureObj.ReleaseTreasureGuard(lockID)
+				shiftedTreasures = append(shiftedTreasures, clonedTreasure)
+				delete(b.treasuresByKeys, treasureObj.GetKey())
+				counter++
+				continue
+			}
 		}
+		remainingTreasures = append(remainingTreasures, treasureObj)
 	}
 	b.treasuresByOrder = remainingTreasures
 	return shiftedTreasures
@@ -980,7 +982,14 @@ func (b *beacon) ShiftExpired(howMany int) []treasure.Treasure {
 	counter := 0
 	now := time.Now().UTC().UnixNano()
 	for _, treasureObj := range b.treasuresByOrder {
-		lockerID := treasureObj.StartTreasureGuard(true)
+		// Never wait for a record guard while holding b.mu: whoever holds the guard (a delete, a save that
+		// re-indexes the record) takes b.mu next, and both would wait forever. A record that is busy right
+		// now is skipped and stays indexed for the next call.
+		lockerID := treasureObj.StartTreasureGuard(false)
+		if lockerID == 0 {
+			remainingTreasures = append(remainingTreasures, treasureObj)
+			continue
+		}
 		// ExpirationTime == 0 means "never expires" (matches IsExpired);
 		// guard against returning rows whose TTL was cleared after they
 		// were originally indexed.
@@ -1050,7 +1059,12 @@ func (b *beacon) ShiftMatching(howMany int, predicate func(treasure.Treasure) bo
 	counter := 0
 	matchesBeyondBudget := 0
 	for _, treasureObj := range b.treasuresByOrder {
-		lockerID := treasureObj.StartTreasureGuard(true)
+		// never wait for a record guard while holding b.mu (see ShiftExpired)
+		lockerID := treasureObj.StartTreasureGuard(false)
+		if lockerID == 0 {
+			remainingTreasures = append(remainingTreasures, treasureObj)
+			continue
+		}
 		matched := predicate(treasureObj)
 		if matched && counter < effectiveHowMany {
 			clonedTreasure := treasureObj.Clone(lockerID)
@@ -1292,20 +1306,21 @@ func (b *beacon) CloneOrderedTreasures(thenReset bool) []treasure.Treasure {
 
 	atomic.StoreInt32(&b.initialized, 1)
 
+	// take the list under b.mu, clone the records after releasing it: waiting for a record guard while
+	// holding b.mu deadlocks against a guard holder that wants b.mu (see ShiftExpired)
 	b.mu.Lock()
-	defer b.mu.Unlock()
-
-	// clone the slice because we don't want to expose the internal slice
 	clone := make([]treasure.Treasure, len(b.treasuresByOrder))
-	for index, treasureObj := range b.treasuresByOrder {
-		lockerID := treasureObj.StartTreasureGuard(true)
-		clone[index] = treasureObj.Clone(lockerID)
-		treasureObj.ReleaseTreasureGuard(lockerID)
-	}
-
+	copy(clone, b.treasuresByOrder)
 	if thenReset {
 		b.treasuresByOrder = nil
 		b.treasuresByKeys = make(map[string]treasure.Treasure)
+	}
+	b.mu.Unlock()
+
+	for index, treasureObj := range clone {
+		lockerID := treasureObj.StartTreasureGuard(true)
+		clone[index] = treasureObj.Clone(lockerID)
+		treasureObj.ReleaseTreasureGuard(lockerID)
 	}
 
 	return clone
@@ -1317,19 +1332,22 @@ func (b *beacon) CloneUnorderedTreasures(thenReset bool) map[string]treasure.Tre
 
 	atomic.StoreInt32(&b.initialized, 1)
 
+	// same two steps as CloneOrderedTreasures: no record guard is awaited under b.mu
 	b.mu.Lock()
-	defer b.mu.Unlock()
-
-	treasuresClone := make(map[string]treasure.Treasure)
+	treasuresClone := make(map[string]treasure.Treasure, len(b.treasuresByKeys))
 	for key, value := range b.treasuresByKeys {
-		guardID := value.StartTreasureGuard(true)
-		treasuresClone[key] = value.Clone(guardID)
-		value.ReleaseTreasureGuard(guardID)
+		treasuresClone[key] = value
 	}
-
 	if thenReset {
 		b.treasuresByOrder = nil
 		b.treasuresByKeys = make(map[string]treasure.Treasure)
+	}
+	b.mu.Unlock()
+
+	for key, value := range treasuresClone {
+		guardID := value.StartTreasureGuard(true)
+		treasuresClone[key] = value.Clone(guardID)
+		value.ReleaseTreasureGuard(guardID)
 	}
 
 	return treasuresClone
